@@ -170,7 +170,11 @@ EXPORT errno_t _wcsfc_s_chk(wchar_t *restrict dest, rsize_t dmax,
 #endif
         if (unlikely(c > 1)) {
             /* can this be further decomposed? */
-            errno_t rc = towfc_s(tmp, 4, cp);
+            errno_t rc;
+            /* up to 4 characters are stored below, without looking at dmax */
+            if (unlikely(dmax < 5))
+                goto too_small;
+            rc = towfc_s(tmp, 4, cp);
             if (rc < 0)
                 return rc;
             /* I-Dot for Turkish and Azeri */
@@ -232,6 +236,8 @@ EXPORT errno_t _wcsfc_s_chk(wchar_t *restrict dest, rsize_t dmax,
             } else if (unlikely(is_lithuanian)) {
                 /* I-Dot/J-Dot for Lithuanian, I-Dot for Turkish and Azeri.
                    http://unicode.org/reports/tr21/tr21-5.html#SpecialCasing */
+                if (unlikely(dmax < 5))
+                    goto too_small;
                 switch (*src) {
                 case 0xcc:
                     *dest++ = 0x69;
